@@ -262,6 +262,7 @@ def run(ctx):
     ctx.replayers['C17.setter.'] = replay_setter
     ctx.replayers['C17.step.'] = replay_step
     ctx.replayers['C17.finish.'] = replay_step
+    ctx.replayers['C17._is_max_steps_exceeded'] = replay_step
     ctx.replayers['C17.'] = lambda r: dict(reproduced=None, detail='invariant-based obligation; see solver model')
 
 def _setter_info(name):
@@ -436,4 +437,22 @@ def replay_step(r):
         snap = (len(t.history), t.valid, t.premature)
         t.step(); t.build()
         if (len(t.history), t.valid, t.premature) != snap or len(t.history) > 1: out.append(f'{L} {a} max_steps=1: {snap} -> {(len(t.history), t.valid, t.premature)}')
+    # the step limit on tableaux populated by hand (no argument, or a trunk that was not built from it): recorded steps <= max_steps
+    from pytableaux.proof import snode
+    from pytableaux.lang import Atomic, Operator
+    A, B, C = Atomic(0, 0), Atomic(1, 0), Atomic(2, 0)
+    for L in ('CPL', 'FDE', 'K'):
+        for k in (1, 2, 3):
+            for how in ('build', 'step'):
+                try:
+                    t = Tableau(L, max_steps=k)
+                    b = t.branch()
+                    from pytableaux.proof import sdwnode
+                    s = Operator.Conjunction(Operator.Conjunction(A, B), Operator.Conjunction(C, Operator.Negation(Operator.Negation(A))))
+                    b.append(sdwnode(s, True if L == 'FDE' else None, 0 if L == 'K' else None))
+                    if how == 'build': t.build()
+                    else:
+                        for _ in range(k + 3): t.step()
+                    if len(t.history) > k: out.append(f'{L} hand-made trunk, max_steps={k}, {how}: {len(t.history)} steps recorded')
+                except Exception as ex: out.append(f'{L} hand-made trunk max_steps={k}: {type(ex).__name__}: {ex}')
     return dict(reproduced=bool(out), detail='; '.join(out[:3]) or 'finished tableaux stay as they are')
